@@ -9,17 +9,19 @@
 // excluded case of two calls on one tick 16384 increments apart).
 //
 // The burst monitors check (a) and (b) by EVENT ORDER only, no rates, no durations:
-//   (a) counter: with the counter set to c0 before the burst and N calls in total, the final counter is c0+N
-//       and the 14-bit clock fields of the N results are exactly the residues of c0+1 … c0+N (as a multiset);
-//   (b) sandwich: a goroutine reads the wall clock (lo), makes `chunk` calls, reads the wall clock again (hi):
-//       every result of the chunk carries a tick in [tick(lo), tick(hi)], and the ticks of one goroutine's
-//       results never decrease (theorem C19_timeuuid_sandwich: getTimestamp is monotone and the UUID stores
-//       the reading's tick exactly); tick() is computed here, independently of gocql's getTimestamp;
-//   (c) every result is a version-1 / RFC 4122 UUID with the node the generator was given;
-//   (d) duplicates: a repeated UUID whose two copies both pass (a)–(c) is exactly the excluded condition of
-//       KF-C19-1 (same real 100 ns tick, a multiple of 16384 increments apart — a caller descheduled between
-//       time.Now() and the atomic increment); it is counted, not reported. A repeated UUID together with a
-//       failed (a)/(b) is named in the answer.
+//
+//	(a) counter: with the counter set to c0 before the burst and N calls in total, the final counter is c0+N
+//	    and the 14-bit clock fields of the N results are exactly the residues of c0+1 … c0+N (as a multiset);
+//	(b) sandwich: a goroutine reads the wall clock (lo), makes `chunk` calls, reads the wall clock again (hi):
+//	    every result of the chunk carries a tick in [tick(lo), tick(hi)], and the ticks of one goroutine's
+//	    results never decrease (theorem C19_timeuuid_sandwich: getTimestamp is monotone and the UUID stores
+//	    the reading's tick exactly); tick() is computed here, independently of gocql's getTimestamp;
+//	(c) every result is a version-1 / RFC 4122 UUID with the node the generator was given;
+//	(d) duplicates: a repeated UUID whose two copies both pass (a)–(c) is exactly the excluded condition of
+//	    KF-C19-1 (same real 100 ns tick, a multiple of 16384 increments apart — a caller descheduled between
+//	    time.Now() and the atomic increment); it is counted, not reported. A repeated UUID together with a
+//	    failed (a)/(b) is named in the answer.
+//
 // A chunk whose two harness readings are themselves inconsistent (wall clock stepped: hi < lo, or wall and
 // monotonic deltas disagree) is left out of (b).
 package main
@@ -52,6 +54,7 @@ type burstStats struct {
 	minChunkAdvance                 int64 // smallest hi-lo over the usable chunks (ticks)
 	gcdTicks                        int64 // gcd of (tick - first tick) over all results
 	kf1Dups                         int   // duplicates inside the excluded condition of KF-C19-1
+	maxOwnCallsOnTick               int   // most consecutive calls of ONE goroutine while its own clock readings stayed on one tick
 	distinctTicks                   int
 }
 
@@ -187,6 +190,22 @@ func burst(c0 uint32, g, n, chunk int, hw []byte) string {
 			prev = ts
 			perTick[ts]++
 			bstats.gcdTicks = gcd64(bstats.gcdTicks, ts-base)
+		}
+		// hypothesis of C19_timeuuid_unique_monotone_clock observed on the real time source: how many consecutive
+		// calls one goroutine makes while the harness's readings of the clock stay on one 100 ns tick (the theorem
+		// needs fewer than 16384 in total; g goroutines make at most g times this many)
+		stretch, from := 0, int64(-1)
+		for _, b := range brs[gi] {
+			if b.usable && b.lo == from && b.hi == from {
+				stretch += chunk
+			} else if b.usable && b.lo == b.hi {
+				stretch, from = chunk, b.lo
+			} else {
+				stretch, from = 0, -1
+			}
+			if stretch > bstats.maxOwnCallsOnTick {
+				bstats.maxOwnCallsOnTick = stretch
+			}
 		}
 		for _, b := range brs[gi] {
 			bstats.chunks++
@@ -340,15 +359,16 @@ func runBursts(r *vh.Rng, out *vh.Out, mult int) {
 
 func burstSummary() map[string]interface{} {
 	keys := map[string]interface{}{
-		"burst_bursts":              bstats.bursts,
-		"burst_calls":               bstats.calls,
-		"burst_chunks":              bstats.chunks,
-		"burst_chunks_unusable":     bstats.unusable,
-		"burst_max_results_on_tick": bstats.maxPerTick,
-		"burst_gcd_of_ticks":        bstats.gcdTicks,
-		"burst_min_chunk_advance":   bstats.minChunkAdvance,
-		"burst_kf1_duplicates":      bstats.kf1Dups,
-		"burst_distinct_ticks":      bstats.distinctTicks,
+		"burst_bursts":                                bstats.bursts,
+		"burst_calls":                                 bstats.calls,
+		"burst_chunks":                                bstats.chunks,
+		"burst_chunks_unusable":                       bstats.unusable,
+		"burst_max_results_on_tick":                   bstats.maxPerTick,
+		"burst_gcd_of_ticks":                          bstats.gcdTicks,
+		"burst_min_chunk_advance":                     bstats.minChunkAdvance,
+		"burst_kf1_duplicates":                        bstats.kf1Dups,
+		"burst_max_own_consecutive_calls_on_one_tick": bstats.maxOwnCallsOnTick,
+		"burst_distinct_ticks":                        bstats.distinctTicks,
 	}
 	return keys
 }
